@@ -127,6 +127,9 @@ def gen_tensor(rng):
         a = yastn.block({(0,): a, (1,): b}, common_legs=tuple(range(1, a.ndim)))
     if style == 'lazy' or rng.random() < 0.3:
         a, _ = tgen.lazy(rng, a, p=1.0)
+    if rng.random() < 0.2:
+        # the config's default dtype differs from the dtype of the data (real data under a complex default and vice versa)
+        a = a._replace(config=a.config._replace(default_dtype='complex128' if not a.is_complex() else 'float64'))
     return a, style, sym
 
 
@@ -150,9 +153,11 @@ def tensor_roundtrips(ctx, quick, trees):
                     return np.load(buf, allow_pickle=True).item()
                 routes['numpy'] = via_np
                 routes['split'] = lambda d=d: yastn.combine_data_and_meta(*yastn.split_data_and_meta(d))
+            routes['with-config'] = lambda d=d: ('CONFIG', d)
             for rn, route in routes.items():
                 try:
-                    b = yastn.from_dict(route())
+                    rr = route()
+                    b = yastn.from_dict(rr[1], config=a.config) if isinstance(rr, tuple) and rr[0] == 'CONFIG' else yastn.from_dict(rr)
                     if rn == 'direct':
                         b2 = yastn.Tensor.from_dict(route())
                 except Exception as e:
@@ -252,6 +257,23 @@ def meta_linear(ctx, quick):
         lg = {i: yastn.legs_union(back.get_legs(i), xs.get_legs(i)) for i in range(r)}
         if tuple(back.n) != tuple(xs.n) or not np.array_equal(back.to_numpy(legs=lg), xs.to_numpy(legs=lg)):
             ctx.violation('from_dict(combine_data_and_meta(to_dict(x, meta).data, meta)) is not x (%s, perm %r, sym %s)' % (how, perm, sym), desc, family=fam)
+        # a tensor whose blocks, slices and meta-fusion agree with the meta but whose HARD-fusion history differs (legs fused in the other order)
+        if sym != 'dense' and rng.random() < 0.5:
+            l1 = tgen.rleg(rng, cfg, sym, maxD=2, nsec=2)
+            l2 = tgen.rleg(rng, cfg, sym, s=l1.s, maxD=2, nsec=2)
+            try:
+                t12 = tgen.rtensor(rng, cfg, [l1, l2, l1.conj()], n=cfg.sym.zero()).fuse_legs(axes=((0, 1), 2), mode='hard')
+                t21 = tgen.rtensor(rng, cfg, [l2, l1, l1.conj()], n=cfg.sym.zero()).fuse_legs(axes=((0, 1), 2), mode='hard')
+                if t12.size and t12.struct == t21.struct and t12.slices == t21.slices and t12.hfs != t21.hfs:
+                    _, m12 = yastn.split_data_and_meta(t12.to_dict(level=0), squeeze=True)
+                    ctx.count('meta:other-hard-fusion-history')
+                    try:
+                        t21.to_dict(level=0, meta=m12, resolve_ops=ro[3])
+                        ctx.violation('to_dict(meta=...) accepted a tensor whose hard-fusion history differs from the one of the meta (legs fused in the other order)', dict(desc, what='hfs'))
+                    except yastn.YastnError:
+                        pass
+            except yastn.YastnError:
+                pass
         # incompatible meta
         other_legs = [tgen.perturb_leg(rng, cfg, sym, l) for l in legs]
         if sym != 'dense' and [o.t for o in other_legs] != [l.t for l in legs]:
